@@ -1747,6 +1747,20 @@ def rule_nondet(crate, prop, tier):
         o.check(tainted_seed is None or allowed, prog.pretty[root], "thread-count-in-seed",
                 "the number of CPUs flows into a PRNG seed: the result depends on the machine",
                 tainted_seed["span"] if tainted_seed else None)
+    # a seeded generator whose workers claim work from a shared atomic counter: which worker's PRNG stream serves which row
+    # then depends on the schedule (a fixed block / stride per worker does not)
+    ATOMIC_RMW = ("fetch_add", "fetch_sub", "fetch_update", "swap", "compare_exchange", "compare_exchange_weak", "fetch_max", "fetch_min")
+    for root, nm, st in generator_impls(crate, True):
+        fam = [p for p in crate.fn_paths() if prog.fns[p].get("root") == root or p == root]
+        draws = any(ev["k"] == "call" and ev["key"] and ("Xoshiro256StarStar" in ev["key"] or "SplitMix64" in ev["key"])
+                    for p in fam for ev in crate.an(p).events)
+        for p in fam:
+            for ev in crate.an(p).events:
+                if ev["k"] == "call" and ev["key"] and ev["key"].startswith("core::sync::atomic::Atomic") \
+                        and ev["key"].split("::")[-1] in ATOMIC_RMW and draws:
+                    o.check(False, prog.pretty[p], "dynamic-work-in-seeded-generator", "a seeded generator hands out work through a shared "
+                            "atomic counter (%s): which PRNG stream fills which row depends on the thread schedule, so equal arguments "
+                            "no longer give equal digraphs" % ev["key"].split("::")[-1], ev["span"])
     return o.report(floors={"bodies scanned": (o.instances, 300)},
                     note="available_parallelism families=%d" % len(ap_fns))
 
